@@ -33,7 +33,7 @@ NONTRIVIAL = {
     "C12": ("fault:worker_raises", "fault:callback_raises", "fault:factory_raises", "fault:bad_element"),
     "C13": ("op:flush",),
     "C14": ("op:stop",),
-    "C15": ("op:set_size",),
+    "C15": ("op:size_set", "probe:spawner_blocked_on_full_pool"),
 }
 
 RULES = {
@@ -51,7 +51,7 @@ RULES = {
     "C12": "non-trivial = an injected exception (worker, callback, factory call, bad element) actually fired; distinct by event-log digest",
     "C13": "non-trivial = a flush was executed; distinct by event-log digest",
     "C14": "non-trivial = a stop()/stop_all() was executed; distinct by event-log digest",
-    "C15": "non-trivial = pool_size was assigned; distinct by event-log digest",
+    "C15": "directed family over (class, old, new, tasks) x timing/history incl. re-entrant access from end callbacks, plus seeded random runs and cancel sweeps ending with a pool_size read on the idle pool; non-trivial = pool_size was assigned, or a spawner had been blocked on the full pool; distinct by event-log digest",
 }
 
 # Random runs in which the trigger of ONE recorded finding is NOT steered around, for the properties
@@ -77,6 +77,7 @@ SWEEP_STEPS = {
     "C12": ["flush", "gather"],
     "C13": ["flush", "flush2"],
     "C14": ["stop1", "stop2"],
+    "C15": ["cancel_group", "cancel_all", "cancel_live"],
 }
 
 
@@ -96,7 +97,22 @@ def units(prop, tier, seed):
     order = itertools.count()
     if prop == "C15":
         from . import size_family
-        yield from size_family.units(prop, tier, seed, order)
+        gen = size_family.units(prop, tier, seed, order)
+        if tier == "quick":
+            yield from gen
+            for i in range(QUICK_SWEEPS // 2):
+                yield ("sweep", subseed(seed, prop, "sweep", i), next(order))
+            for i in range(QUICK_RANDOM // 2):
+                yield ("rand", subseed(seed, prop, "rand", i), next(order))
+        else:
+            i = 0
+            for u in gen:
+                yield u
+                i += 1
+                if i % 4 == 0:
+                    yield ("rand", subseed(seed, prop, "rand", i), next(order))
+                if i % 200 == 0:
+                    yield ("sweep", subseed(seed, prop, "sweep", i), next(order))
         return
     from . import hazards
     for u in hazards.units(prop, tier, seed):
@@ -158,6 +174,8 @@ def exec_unit(prop, unit, agg):
     if kind == "rand":
         g = Gen(arg, prop, True)
         run = {"prop": prop, "seed": arg, "clean": True, "config": g.make_config(), "steps": []}
+        if g.own_iter_cancel:
+            run["own_iter_cancel"] = True
         sim = Sim(run, {prop})
         sim.execute(g.next_step)
         _account(prop, sim, agg, order, "rand")
